@@ -8,7 +8,7 @@ use std::sync::Arc;
 use serde::{Deserialize, Serialize};
 use simcore::{Alg, Rng};
 
-use crate::engine::guarded;
+use simcore::engine::guarded;
 use crate::keys::{KeySpec, Loader, SimKey};
 use crate::recipe::{AttrR, CertRecipe, CrlRecipe};
 use crate::signer::{remote_key_pair, Bus, SeamHook, SignCall, SignerFault};
@@ -64,10 +64,7 @@ pub struct KeyHandle {
 impl KeyHandle {
     /// Algorithms this key may legitimately sign with, given how it entered rcgen.
     pub fn allowed_algs(&self) -> Vec<Alg> {
-        let auto = matches!(
-            self.custody,
-            Custody::Local(Loader::SliceAuto | Loader::VecAuto | Loader::Pkcs8Auto | Loader::PrivateKeyDerAuto | Loader::PemAuto)
-        );
+        let auto = matches!(self.custody, Custody::Local(l) if l.is_auto());
         if auto && self.sim.alg.is_rsa() {
             vec![Alg::RsaSha256, Alg::RsaSha384, Alg::RsaSha512]
         } else {
